@@ -20,7 +20,7 @@ from gen import Cfg, G
 from pipeline import Case, exec_diff, replay_case
 from shrink import prog_control_in_operand, shrink
 
-PROOF_MODULES = ["PyTealV.Proofs.C02Spill"]
+PROOF_MODULES = ["PyTealV.Proofs.C02Spill", "PyTealV.Proofs.C02RecPoints", "PyTealV.Proofs.SimR"]
 TRUSTED = [
     "Lean 4 kernel; axioms propext, Classical.choice, Quot.sound only",
     "AVM spec lean/PyTealV/Avm (callsub/retsub/proto/frame_dig/frame_bury frame rules written from the AVM specification)",
@@ -51,7 +51,7 @@ def option_sets(version, r, tier):
 
 
 def run(tier: str) -> int:
-    rep = Report("C02", tier, level="exploration")
+    rep = Report("C02", tier, level="translation_validation")
     mods = existing(PROOF_MODULES)
     st = check_proofs(mods) if mods else None
     r = rng("c02")
@@ -195,6 +195,8 @@ def run(tier: str) -> int:
         rep.violation("proof obligations no longer check: " + "; ".join(st.problems)[:600],
                       {"theorems": mods, "problems": st.problems, "log": st.log[-3000:]}, no_input=True)
     cov = {
+        "programs": sum(v for k, v in stats.items() if k.startswith("validateprog:") and not k.endswith("spill code")),
+        "disagreements_checked": stats.get("validateprog:invalid", 0) + sum(v for k, v in stats.items() if k == "exec:differ"),
         "evaluations": evaluations + fam_cases,
         "distinct_nontrivial": len(distinct),
         "rule": "random call graphs from harness/gen.py (1-4 subroutines, depth-counter recursion incl. mutual recursion, by-value/by-ref "
